@@ -3,7 +3,7 @@
 //! history never asks more than the properties state) and their effect on the model.
 
 use crate::content::Content;
-use crate::world::{Disk, Model, SLOTS, Status};
+use crate::world::{Disk, Model, SLOT_H, SLOTS, Status};
 use zysim_common::{Value, json};
 
 #[derive(Clone, Debug, PartialEq, Eq)]
@@ -205,6 +205,13 @@ impl Op {
             }
             | Op::WriteRefresh { .. } | Op::Refresh { .. } => true,
             | Op::DeleteRefresh { slot } => !model.pinned(*slot),
+            // `g/` exists exactly while `g/h.zy` does, and a path's identity depends on which
+            // of its ancestors exist: disk and view of that slot must never diverge
+            | Op::FaultDirectory { slot } | Op::FaultGarbage { slot } | Op::SilentWrite { slot, .. } | Op::SilentDelete { slot }
+                if *slot == SLOT_H && !matches!(model.slots[*slot].status, Status::Never) =>
+            {
+                false
+            }
             | Op::FaultDirectory { slot } | Op::FaultGarbage { slot } => model.certain(*slot) && !model.pinned(*slot),
             | Op::SilentWrite { slot, .. } => model.certain(*slot),
             | Op::SilentDelete { slot } => model.certain(*slot) && !model.pinned(*slot),
